@@ -18,6 +18,7 @@ fn main() {
     match cmd {
         "makediff" => makediff(&args[2..]),
         "makediff-pairs" => makediff_pairs(&args[2..]),
+        "linescan" => linescan(&args[2..]),
         _ => {
             eprintln!("usage: rfv-unit <makediff|makediff-pairs> ...");
             std::process::exit(2);
@@ -310,5 +311,153 @@ fn makediff_pairs(_args: &[String]) {
             rec["name"] = v["name"].clone();
             writeln!(out, "{}", rec).unwrap();
         }
+    }
+}
+
+
+// ---------------------------------------------------------------------------
+// C07: the line scanner on enumerated texts built from classified symbols.
+// ---------------------------------------------------------------------------
+
+/// One line: leading blanks, code, an optional string literal, an optional
+/// line comment or trailing blanks.  Returns (text without LF, symbols, LF symbol).
+fn line_shapes() -> Vec<(String, Vec<&'static str>, &'static str)> {
+    let mut out = vec![];
+    for lead in ["", "\t", " "] {
+        for code in 0..4usize {
+            for strlen in [0usize, 3] {
+                for com in [0usize, 3, 4] {
+                    for trail in ["", " ", "  ", "\t"] {
+                        let mut text = String::new();
+                        let mut syms: Vec<&'static str> = vec![];
+                        for c in lead.chars() {
+                            text.push(c);
+                            syms.push(if c == '\t' { "tab" } else { "sp" });
+                        }
+                        for _ in 0..code {
+                            text.push('x');
+                            syms.push("x");
+                        }
+                        if strlen > 0 {
+                            text.push('"');
+                            syms.push("q");
+                            for _ in 0..strlen - 2 {
+                                text.push('s');
+                                syms.push("q");
+                            }
+                            text.push('"');
+                            syms.push("q");
+                        }
+                        let mut lf = "lf";
+                        if com > 0 {
+                            text.push_str("//");
+                            syms.push("k");
+                            syms.push("k");
+                            for _ in 0..com - 2 {
+                                text.push('c');
+                                syms.push("k");
+                            }
+                            for c in trail.chars() {
+                                text.push(c);
+                                syms.push(if c == '\t' { "ktab" } else { "ksp" });
+                            }
+                            lf = "lfk";
+                        } else {
+                            for c in trail.chars() {
+                                text.push(c);
+                                syms.push(if c == '\t' { "tab" } else { "sp" });
+                            }
+                        }
+                        out.push((text, syms, lf));
+                    }
+                }
+            }
+        }
+    }
+    out
+}
+
+/// linescan <seed> <n_multi>: every single-line text x every configuration, plus
+/// n_multi seed-selected 2..3-line texts with skipped ranges / line selections.
+fn linescan(args: &[String]) {
+    use rustfmt_nightly::{FileLines, FileName, Range};
+    let seed: u64 = args[0].parse().unwrap();
+    let n_multi: usize = args[1].parse().unwrap();
+    let shapes = line_shapes();
+    let out = std::io::stdout();
+    let mut out = std::io::BufWriter::new(out.lock());
+    let mut rng = seed.wrapping_mul(0x9E37_79B9_7F4A_7C15) | 1;
+    let name = FileName::Stdin;
+    let mut emit = |lines: &[usize], mw: usize, ts: usize, eoo: bool, eou: bool,
+                    skipped: Vec<(usize, usize)>, sel: Option<Vec<usize>>, extra_nl: usize| {
+        let mut text = String::new();
+        let mut syms: Vec<&str> = vec![];
+        for &i in lines {
+            text.push_str(&shapes[i].0);
+            text.push('\n');
+            syms.extend(shapes[i].1.iter());
+            syms.push(shapes[i].2);
+        }
+        for _ in 0..extra_nl {
+            text.push('\n');
+            syms.push("lf");
+        }
+        let mut config = Config::default();
+        config.set().max_width(mw);
+        config.set().tab_spaces(ts);
+        config.set().error_on_line_overflow(eoo);
+        config.set().error_on_unformatted(eou);
+        if let Some(ref sel) = sel {
+            let mut m = HashMap::new();
+            m.insert(name.clone(), sel.iter().map(|&n| Range::new(n, n)).collect::<Vec<_>>());
+            config.set().file_lines(FileLines::from_ranges(m));
+        }
+        let (res, reports) = verif::format_lines(&text, &name, &skipped, &config);
+        let tail = |s: &str| s.len() - s.trim_end_matches('\n').len();
+        let rec = json!({
+            "cfg": {"mw": mw, "ts": ts, "eoo": eoo, "eou": eou},
+            "syms": syms, "skipped": skipped.iter().map(|(a, b)| json!([a, b])).collect::<Vec<_>>(),
+            "sel_all": sel.is_none(), "sel": sel.clone().unwrap_or_default(),
+            "reports": reports.iter().map(|(l, k)| json!([l, k])).collect::<Vec<_>>(),
+            "tail_in": tail(&text), "tail_out": tail(&res), "text": text,
+        });
+        writeln!(out, "{}", rec).unwrap();
+    };
+    for i in 0..shapes.len() {
+        for mw in [4usize, 6] {
+            for ts in [1usize, 2, 4] {
+                for (eoo, eou) in [(true, true), (true, false), (false, true), (false, false)] {
+                    emit(&[i], mw, ts, eoo, eou, vec![], None, 0);
+                }
+            }
+        }
+    }
+    for _ in 0..n_multi {
+        let k = 2 + (xorshift(&mut rng) % 3) as usize;
+        let lines: Vec<usize> = (0..k).map(|_| (xorshift(&mut rng) % shapes.len() as u64) as usize).collect();
+        let mw = 3 + (xorshift(&mut rng) % 5) as usize;
+        let ts = 1 + (xorshift(&mut rng) % 8) as usize;
+        let eoo = xorshift(&mut rng) % 4 != 0;
+        let eou = xorshift(&mut rng) % 2 == 0;
+        // the scanner receives the ranges in the order the formatter recorded them,
+        // which is not the order of the lines
+        let skipped = match xorshift(&mut rng) % 8 {
+            0 => vec![(1, 1)],
+            1 => vec![(2, 3)],
+            2 => vec![(2, 1)],
+            3 => vec![(3, 3), (2, 2)],
+            4 => vec![(2, 4), (1, 1)],
+            5 => vec![(3, 3), (1, 1), (2, 2)],
+            6 => vec![(1, 2), (2, 3)],
+            _ => vec![],
+        };
+        let sel = match xorshift(&mut rng) % 4 {
+            0 => Some(vec![1]),
+            1 => Some(vec![2, 3]),
+            2 => Some(vec![]),
+            _ => None,
+        };
+        let extra = (xorshift(&mut rng) % 3) as usize;
+        emit(&lines, mw, ts, eoo, eou, skipped, sel, extra);
     }
 }
